@@ -18,9 +18,9 @@ CLAIMS.update({
     "C05": dict(text="Theorem C05_monotone: under Range, every sequence of public inference calls only tightens every object's bounds (aggregation = max/min + clamp). Proved for the propositional engine incl. Iff/XOr; the first-order/quantifier part is covered by the FOL model when present (see level_note).",
                 design="7/C05", technique="Coq proof (monotone invariant) + exact differential correspondence",
                 note=NOTE_TB + " Partial: the theorem covers the propositional engine; first-order tables and quantifiers are only monitored on the implementation until the FOL model lands."),
-    "C13": dict(text="Theorems C13_node_upward/_node_downward/_model_pass: the reported amount equals the total interval width removed (potential function), hence is zero iff no bound of any object changed; for connectives, Not, Iff, XOr (with the repaired accounting of sub-formulae) and model passes; first-order: C13_fol_zero_means_unchanged (every public first-order inference operation: amount >= 0, and a reported zero means no formula reads differently at any grounding), C13_fol_single_row_partial / C13_fol_merged_rows_partial (amount of a row write and of merged duplicate writes).",
+    "C13": dict(text="Theorems C13_node_upward/_node_downward/_model_pass: the reported amount equals the total interval width removed (potential function), hence is zero iff no bound of any object changed; for connectives, Not, Iff, XOr (with the repaired accounting of sub-formulae) and model passes; first-order: C13_fol_zero_iff (every public first-order inference operation -- node calls of every kind, passes, infer --: amount >= 0 and zero EXACTLY when no formula reads differently at any grounding; for knowledge bases passing the executable shape check shape_okb and states whose row keys have their formula's arity, an invariant every operation keeps), C13_fol_zero_means_unchanged (the soundness half without any hypothesis), C13_fol_single_row_partial / C13_fol_merged_rows_partial (amount of a row write and of merged duplicate writes).",
                 design="7/C13", technique="Coq proof (potential function) + exact differential correspondence",
-                note=NOTE_TB + " Partial: whole first-order passes and quantifier amounts are monitored on the implementation and tied by the correspondence."),
+                note=NOTE_TB + " Quantifier amounts are monitored on the implementation and tied by the correspondence."),
 })
 
 CLAIMS.update({
